@@ -60,6 +60,7 @@ Definition LOG_SCHED : N := 4.
 Definition LOG_SIGSET : N := 5.
 Definition LOG_SIGDELIVER : N := 6.
 Definition LOG_CZERO : N := 7.
+Definition LOG_CHANGE : N := 8.
 
 Record fstate := mkfstate {
   now : Z;
@@ -325,7 +326,8 @@ Fixpoint transition (fuel : nat) (c : cfg) (tp : tape) (s : fstate) (mi : nat) (
                                      | Some a => sample_limit tp (pos s) a
                                      | None => (STATE_LIMIT_MAX, pos s)
                                      end in
-                      Ok (set_pos (set_rt s mi (rt_set_cur r ns l)) p)
+                      Ok (set_pos (set_rt (add_log s (LOG_CHANGE, N.of_nat mi, ns)) mi
+                                          (rt_set_cur r ns l)) p)
                     else Ok s) ;;
               r1 <- get (rts s) mi ;;
               below <- below_action_limits c s r1 m ;;
